@@ -104,8 +104,16 @@ claim('C15', 'exploration', TECH + ': seeded add/remove/re-add/set-value histori
       'Trusted: the harness AST evaluator and its mirror of the operator shortcuts (wsim/amlsim.py), Python float arithmetic. Values stay inside the domain of definition and away from kinks; '
       'trees have depth <= 4. A clean batch is evidence, not proof.', 'DESIGN.md section 6 (C15)')
 
+claim('C03', 'exploration', TECH + ': the two engines as replicas fed the same seeded schedule through INP files in seeded unit systems; differential comparison of EPANET vs EPANET across units, WNTR vs EPANET, and EPANET on the re-read file',
+      'Generated worlds in the common feature set are run once by the WNTRSimulator (under the taps, all accepted steps recorded) and by EPANET 2.2 on the INP file WNTR writes in 3 seeded '
+      '(thorough: all 10) unit systems, plus on the model re-read from the first file. (a) EPANET results must not depend on the unit system; (b) on healthy worlds WNTR and EPANET must agree at '
+      'every report step incl. status timelines; (c) the re-read model must give the results of the file. Comparisons stop at the first report row at which any run comes near a switching point '
+      '(control threshold, tank limit, internal status change, partial step), because both engines resolve such instants to the second and legitimately differ afterwards.',
+      INV_NOTE + ' EPANET is a binary replica, not rebuilt. Several EPANET behaviours bound the generator (report step = hydraulic step, no rules in worlds with tanks, inequality thresholds 7 s off the rule grid, distinct rule priorities); they are listed in DESIGN.md section 4 (C03).',
+      'DESIGN.md section 4 (C03)')
+
 _PENDING = 'check not built yet in this session (planned, see DESIGN.md section 11); not claimed until it runs clean'
-for _p in ['C03']:
+for _p in []:
     NOT_APPLICABLE[_p] = _PENDING
 NOT_APPLICABLE['C17'] = 'pure total functions of (value, unit, parameter): no state, clock, I/O or failure mode for a schedule or fault to act on; deterministic simulation has nothing to vary (DESIGN.md section 7)'
 NOT_APPLICABLE['C18'] = 'pure function of (graph, valve layer) returning a labelling: nothing evolves, fails or persists (DESIGN.md section 7)'
